@@ -1,0 +1,89 @@
+// This Source Code Form is subject to the terms of the Mozilla Public
+// License, v. 2.0. If a copy of the MPL was not distributed with this
+// file, You can obtain one at http://mozilla.org/MPL/2.0/.
+
+//go:build verif
+
+package resource
+
+// Contracts for the deductive verifier in /verif (govc). Comment-only file: it
+// adds no code. Lines starting with //@ are parsed by govc; see /verif/DESIGN.md.
+
+// mdOf is the metadata object of a resource (a function of the resource's
+// identity); specOf abstracts its spec.
+
+//@ fn mdOf(r Resource) *Metadata
+//@ fn specOf(r Resource) int
+//@
+//@ iface Resource.Metadata
+//@   pure
+//@   ensures [md] result != nil && result == mdOf(self)
+//@
+//@ iface Resource.DeepCopy
+//@   ensures [copy-nonnil] result != nil && result.tid == self.tid && mdOf(result) != nil
+//@   ensures [copy-content] *mdOf(result) == old(*mdOf(self)) && specOf(result) == specOf(self)
+//@   ensures [copy-tombstone] typeis(self, "*Tombstone") ==> result == self
+//@   ensures [copy-fresh] !typeis(self, "*Tombstone") ==> fresh(result) && fresh(mdOf(result)) && mdOf(result).off == 0
+//@
+//@ iface Resource.Spec
+//@   pure
+//@
+//@ iface Reference.ID
+//@   pure
+//@ iface Reference.Type
+//@   pure
+//@ iface Reference.Namespace
+//@   pure
+//@ iface Reference.Version
+//@   pure
+
+// Accessors are inlined: their body is their contract.
+
+//@ func (Metadata).ID
+//@   inline
+//@ func (Metadata).Type
+//@   inline
+//@ func (Metadata).Namespace
+//@   inline
+//@ func (Metadata).Copy
+//@   inline
+//@ func (Metadata).Version
+//@   inline
+//@ func (Metadata).Created
+//@   inline
+//@ func (Metadata).Updated
+//@   inline
+//@ func (*Metadata).SetVersion
+//@   inline
+//@ func (*Metadata).SetCreated
+//@   inline
+//@ func (*Metadata).SetUpdated
+//@   inline
+//@ func (*Metadata).Finalizers
+//@   inline
+//@ func (*Metadata).Labels
+//@   inline
+//@ func (*Metadata).Annotations
+//@   inline
+//@ func (Metadata).Phase
+//@   inline
+//@ func (*Metadata).SetPhase
+//@   inline
+//@ func (Metadata).Owner
+//@   inline
+//@ func (*Metadata).SetOwner
+//@   inline
+//@ func NewMetadata
+//@   inline
+//@ func NewTombstone
+//@   inline
+//@ func (*Tombstone).Metadata
+//@   inline
+//@ func (Version).Value
+//@   inline
+//@ func (Version).Next
+//@   inline
+//@ func (Version).Equal
+//@   inline
+//@ func (Finalizers).Empty
+//@   inline
